@@ -2,6 +2,7 @@ import PgmVerif.Props.C14
 open PgmVerif
 #print axioms PgmVerif.C14_each_factor_once
 #print axioms PgmVerif.C14_moral_covers_family
+#print axioms PgmVerif.C14_moral_only_family
 #print axioms PgmVerif.C14_bn_to_mn_measure
 #print axioms PgmVerif.C14_elimination_is_perfect
 #print axioms PgmVerif.C14_filled_graph_chordal
